@@ -1,7 +1,8 @@
 package main
 
 // C02 — route choice = static > param > wildcard search with full backtracking, independent
-// of the registration order; host routers.  Model: Router.Spec.routeTable (L1, order free).
+// of the registration order; host routers.  Model: Router.Spec.routeTable (L1, order free) on the table in force
+// after the registration events (C02.inForce: re-registered routes, catch-all routes of groups with middleware).
 
 import (
 	"fmt"
@@ -17,14 +18,28 @@ import (
 type c02Host struct {
 	Host   string   `json:"host"`
 	Routes []rRoute `json:"routes"`
+	Mw     bool     `json:"mw,omitempty"` // created with e.Host(name, mw): the host group registers its two catch-all routes
+}
+
+// c02Group: a group of the default router.  A group that has middleware registers two RouteNotFound routes of its
+// own (its prefix, and everything below `prefix/`); they are part of the table like any other route.
+type c02Group struct {
+	Prefix string `json:"prefix"`
+	Parent int    `json:"parent,omitempty"` // 0: e.Group(...); k: Groups[k-1].Group(...) (k-1 must be a lower index)
+	// Mw: 0 no middleware; 1 passed to Group(prefix, mw); 2 g.Use(mw) right after the group is created;
+	// 3 g.Use(mw) after the last route of the group; 4 = 1 and 3 (the catch-all routes are registered twice)
+	Mw    int  `json:"mw,omitempty"`
+	Early bool `json:"early,omitempty"` // created before any route is registered (else right before its first route)
 }
 
 type c02Case struct {
-	Routes []rRoute  `json:"routes"` // default router, canonical order (handler id = index here)
-	Perm   []int     `json:"perm"`   // registration order actually used: Routes[Perm[0]], Routes[Perm[1]], ...
-	Hosts  []c02Host `json:"hosts,omitempty"`
-	Req    rReq      `json:"req"`
-	Pre    bool      `json:"pre,omitempty"` // a (no-op) Pre middleware is installed: host selection and routing happen inside the Pre chain
+	Routes []rRoute   `json:"routes"` // default router, canonical order (handler id = index here)
+	Perm   []int      `json:"perm"`   // registration order actually used: Routes[Perm[0]], Routes[Perm[1]], ...
+	Hosts  []c02Host  `json:"hosts,omitempty"`
+	Groups []c02Group `json:"groups,omitempty"`
+	In     []int      `json:"in,omitempty"` // per route of Routes: 0 registered on the Echo instance, k through Groups[k-1] (path relative to the group)
+	Req    rReq       `json:"req"`
+	Pre    bool       `json:"pre,omitempty"` // a (no-op) Pre middleware is installed: host selection and routing happen inside the Pre chain
 }
 
 type c02Obs struct {
@@ -48,10 +63,231 @@ func (o c02Obs) wire() string {
 	return wJoin(t, "P")
 }
 
-// c02Serve registers the tables (default table in the order given by perm) and serves req.
-func c02Serve(c *c02Case, perm []int) c02Obs {
+// human: the observation in words (for oracle messages)
+func (o c02Obs) human() string {
+	switch o.Kind {
+	case 'D':
+		return fmt.Sprintf("handler %d of table %d (c.Path() %q, names %q, values %q)", o.Hid, o.Table, o.PPath, o.Names, o.Values)
+	case 'N':
+		return "404"
+	case 'M':
+		return fmt.Sprintf("405/204 with Allow %q", o.Allow)
+	}
+	return "panic " + o.Panic
+}
+
+// ---------- what the application does, step by step ----------
+
+// c02Act: one call the application makes while it sets up its routes
+type c02Act struct {
+	Kind   byte   // 'r' a route is added, 'g' a group is created, 'u' Group.Use on an existing group, 'h' a host router is created
+	Table  int    // 0 default router, k: Hosts[k-1]
+	Grp    int    // 'r': added through Groups[Grp-1] (0: through the Echo instance / the host group); 'g', 'u': Groups[Grp-1]
+	Method string // 'r'
+	Path   string // 'r': as passed to Add (relative to the registrar)
+	Hid    int    // 'r'
+	Mw     bool   // 'g', 'h': created with middleware
+	Pick   int    // 'r': which of the equivalent entry points (Add, verb helper, Match)
+}
+
+// c02Ev: one registration as the router sees it: a route with its full path, or the pair of catch-all routes of a
+// group with middleware (Path = the group's full prefix; handler ids Hid and Hid+1)
+type c02Ev struct {
+	Table  int
+	Use    bool
+	Method string
+	Path   string
+	Hid    int
+}
+
+func (c *c02Case) in(i int) int {
+	if i < len(c.In) && c.In[i] > 0 && c.In[i] <= len(c.Groups) {
+		return c.In[i]
+	}
+	return 0
+}
+
+func (c *c02Case) parent(g int) int {
+	if p := c.Groups[g].Parent; p > 0 && p-1 < g {
+		return p
+	}
+	return 0
+}
+
+// c02Plan: the set-up calls in the order given by perm (hosts and groups in between)
+func c02Plan(c *c02Case, perm []int) []c02Act {
+	var acts []c02Act
+	created := make([]bool, len(c.Groups))
+	last := map[int]int{}
+	for pos, i := range perm {
+		if g := c.in(i); g > 0 {
+			last[g-1] = pos
+		}
+	}
+	var ensure func(g int)
+	ensure = func(g int) {
+		if created[g] {
+			return
+		}
+		if p := c.parent(g); p > 0 {
+			ensure(p - 1)
+		}
+		created[g] = true
+		mw := c.Groups[g].Mw
+		acts = append(acts, c02Act{Kind: 'g', Grp: g + 1, Mw: mw == 1 || mw == 4})
+		if mw == 2 {
+			acts = append(acts, c02Act{Kind: 'u', Grp: g + 1})
+		}
+	}
+	for g := range c.Groups {
+		if c.Groups[g].Early {
+			ensure(g)
+		}
+	}
+	// interleave: host tables are registered between the routes of the default table
+	hostAt := map[int][]int{}
+	for k := range c.Hosts {
+		at := 0
+		if len(perm) > 0 {
+			at = (k * 7) % (len(perm) + 1)
+		}
+		hostAt[at] = append(hostAt[at], k)
+	}
+	regHost := func(k int) {
+		acts = append(acts, c02Act{Kind: 'h', Table: k + 1, Mw: c.Hosts[k].Mw})
+		for i, r := range c.Hosts[k].Routes {
+			acts = append(acts, c02Act{Kind: 'r', Table: k + 1, Method: r.Method, Path: r.Path, Hid: i, Pick: i + k + len(r.Path)})
+		}
+	}
+	for pos, i := range perm {
+		for _, k := range hostAt[pos] {
+			regHost(k)
+		}
+		g := c.in(i)
+		if g > 0 {
+			ensure(g - 1)
+		}
+		acts = append(acts, c02Act{Kind: 'r', Grp: g, Method: c.Routes[i].Method, Path: c.Routes[i].Path, Hid: i, Pick: i + len(c.Routes[i].Path)})
+		if g > 0 && last[g-1] == pos {
+			if mw := c.Groups[g-1].Mw; mw == 3 || mw == 4 {
+				acts = append(acts, c02Act{Kind: 'u', Grp: g})
+			}
+		}
+	}
+	for _, k := range hostAt[len(perm)] {
+		regHost(k)
+	}
+	for g := range c.Groups {
+		if !created[g] {
+			ensure(g)
+			if mw := c.Groups[g].Mw; mw == 3 || mw == 4 {
+				acts = append(acts, c02Act{Kind: 'u', Grp: g + 1})
+			}
+		}
+	}
+	return acts
+}
+
+// c02Expand: what every set-up call registers (the harness's own reading of group.go: a group's routes get the
+// group's full prefix; Use — also the implicit one of Group(prefix, mw...) / Host(name, mw...), and of a sub-group
+// that inherits middleware — registers the two catch-all routes whenever the group then has any middleware)
+func c02Expand(c *c02Case, acts []c02Act) [][]c02Ev {
+	prefix := make([]string, len(c.Groups))
+	mwc := make([]int, len(c.Groups))
+	out := make([][]c02Ev, len(acts))
+	for k, a := range acts {
+		switch a.Kind {
+		case 'g':
+			g := a.Grp - 1
+			prefix[g] = c.Groups[g].Prefix
+			if p := c.parent(g); p > 0 {
+				prefix[g] = prefix[p-1] + prefix[g]
+				mwc[g] = mwc[p-1]
+			}
+			if a.Mw {
+				mwc[g]++
+			}
+			if mwc[g] > 0 {
+				out[k] = []c02Ev{{Use: true, Path: prefix[g], Hid: len(c.Routes) + 2*g}}
+			}
+		case 'u':
+			g := a.Grp - 1
+			mwc[g]++
+			out[k] = []c02Ev{{Use: true, Path: prefix[g], Hid: len(c.Routes) + 2*g}}
+		case 'h':
+			if a.Mw {
+				out[k] = []c02Ev{{Table: a.Table, Use: true, Path: "", Hid: len(c.Hosts[a.Table-1].Routes)}}
+			}
+		case 'r':
+			p := a.Path
+			if a.Grp > 0 {
+				p = prefix[a.Grp-1] + p
+			}
+			out[k] = []c02Ev{{Table: a.Table, Method: a.Method, Path: p, Hid: a.Hid}}
+		}
+	}
+	return out
+}
+
+// c02Entry: one route of a table (a catch-all route of a group is a RouteNotFound route)
+type c02Entry struct {
+	Method string
+	Path   string
+	Hid    int
+}
+
+func c02Entries(ev c02Ev) []c02Entry {
+	if ev.Use {
+		return []c02Entry{{routeNotFound, ev.Path, ev.Hid}, {routeNotFound, ev.Path + "/*", ev.Hid + 1}}
+	}
+	return []c02Entry{{ev.Method, ev.Path, ev.Hid}}
+}
+
+func c02Key(e c02Entry) string {
+	toks, _, _ := rNorm(e.Path)
+	return e.Method + " " + rTokKey(toks)
+}
+
+// c02InForce: the table in force, by the property's quantifier: of structurally identical registrations (same method,
+// same pattern up to parameter names and text after `*`) the last one wins.  Sorted by handler id.
+func c02InForce(evs []c02Ev) (tbl []c02Entry, shadowed map[int]bool) {
+	var all []c02Entry
+	for _, ev := range evs {
+		all = append(all, c02Entries(ev)...)
+	}
+	lastAt := map[string]int{}
+	for i, e := range all {
+		lastAt[c02Key(e)] = i
+	}
+	shadowed = map[int]bool{}
+	inforce := map[int]bool{}
+	for i, e := range all {
+		if lastAt[c02Key(e)] == i {
+			tbl = append(tbl, e)
+			inforce[e.Hid] = true
+		}
+	}
+	for _, e := range all {
+		if !inforce[e.Hid] {
+			shadowed[e.Hid] = true
+		}
+	}
+	sort.SliceStable(tbl, func(a, b int) bool { return tbl[a].Hid < tbl[b].Hid })
+	return tbl, shadowed
+}
+
+func c02NormPath(p string) string {
+	if p == "" || p[0] != '/' {
+		return "/" + p
+	}
+	return p
+}
+
+// c02Exec makes the set-up calls on a new Echo instance and serves req.
+func c02Exec(c *c02Case, acts []c02Act, evs [][]c02Ev) c02Obs {
 	var cur rObs
 	table := -1
+	seen := -1 // table of the group whose middleware ran last for the current request
 	e := echo.New()
 	e.Logger.SetOutput(nopWriter{})
 	mk := func(tbl, i int) echo.HandlerFunc {
@@ -66,29 +302,78 @@ func c02Serve(c *c02Case, perm []int) c02Obs {
 			return ctx.NoContent(http.StatusOK)
 		}
 	}
-	// interleave: host tables are registered between the routes of the default table
-	hostAt := map[int][]int{}
-	for k := range c.Hosts {
-		at := 0
-		if len(perm) > 0 {
-			at = (k * 7) % (len(perm) + 1)
-		}
-		hostAt[at] = append(hostAt[at], k)
-	}
-	regHost := func(k int) {
-		g := e.Host(c.Hosts[k].Host)
-		for i, r := range c.Hosts[k].Routes {
-			rAddVia(g, i+k+len(r.Path), r.Method, r.Path, mk(k+1, i))
+	mkMw := func(tbl int) echo.MiddlewareFunc {
+		return func(next echo.HandlerFunc) echo.HandlerFunc {
+			return func(ctx echo.Context) error {
+				seen = tbl
+				return next(ctx)
+			}
 		}
 	}
-	for pos, i := range perm {
-		for _, k := range hostAt[pos] {
-			regHost(k)
+	// catch-all routes of groups answer through echo.NotFoundHandler, which cannot be instrumented: a 404 that
+	// passed a group's middleware with c.Path() equal to one of that table's catch-all routes is the dispatch to it
+	implicit := map[int]map[string]int{}
+	e.Use(func(next echo.HandlerFunc) echo.HandlerFunc {
+		return func(ctx echo.Context) error {
+			seen = -1
+			err := next(ctx)
+			if cur.Kind != 'D' && err == echo.ErrNotFound && seen >= 0 {
+				if hid, ok := implicit[seen][ctx.Path()]; ok {
+					table = seen
+					cur.Kind = 'D'
+					cur.Hid = hid
+					cur.PPath = ctx.Path()
+					cur.Names = append([]string{}, ctx.ParamNames()...)
+					cur.Values = append([]string{}, ctx.ParamValues()...)
+				}
+			}
+			return err
 		}
-		rAddVia(e, i+len(c.Routes[i].Path), c.Routes[i].Method, c.Routes[i].Path, mk(0, i))
-	}
-	for _, k := range hostAt[len(perm)] {
-		regHost(k)
+	})
+	groups := make([]*echo.Group, len(c.Groups))
+	hostG := map[int]*echo.Group{}
+	for k, a := range acts {
+		switch a.Kind {
+		case 'g':
+			g := a.Grp - 1
+			var mws []echo.MiddlewareFunc
+			if a.Mw {
+				mws = append(mws, mkMw(0))
+			}
+			if p := c.parent(g); p > 0 {
+				groups[g] = groups[p-1].Group(c.Groups[g].Prefix, mws...)
+			} else {
+				groups[g] = e.Group(c.Groups[g].Prefix, mws...)
+			}
+		case 'u':
+			groups[a.Grp-1].Use(mkMw(0))
+		case 'h':
+			if a.Mw {
+				hostG[a.Table] = e.Host(c.Hosts[a.Table-1].Host, mkMw(a.Table))
+			} else {
+				hostG[a.Table] = e.Host(c.Hosts[a.Table-1].Host)
+			}
+		case 'r':
+			var reg rRegistrar = e
+			if a.Grp > 0 {
+				reg = groups[a.Grp-1]
+			} else if a.Table > 0 {
+				reg = hostG[a.Table]
+			}
+			rAddVia(reg, a.Pick, a.Method, a.Path, mk(a.Table, a.Hid))
+		}
+		for _, ev := range evs[k] {
+			if ev.Use {
+				if implicit[ev.Table] == nil {
+					implicit[ev.Table] = map[string]int{}
+				}
+				implicit[ev.Table][c02NormPath(ev.Path)] = ev.Hid
+				implicit[ev.Table][c02NormPath(ev.Path+"/*")] = ev.Hid + 1
+			} else if ev.Method == routeNotFound && implicit[ev.Table] != nil {
+				// an explicit RouteNotFound route registered later takes the place of a catch-all of the same spelling
+				delete(implicit[ev.Table], c02NormPath(ev.Path))
+			}
+		}
 	}
 	if c.Pre {
 		e.Pre(func(next echo.HandlerFunc) echo.HandlerFunc { return func(ctx echo.Context) error { return next(ctx) } })
@@ -110,14 +395,40 @@ func c02Serve(c *c02Case, perm []int) c02Obs {
 	return c02Obs{cur, table}
 }
 
-func c02Selected(c *c02Case) (int, []rRoute) {
+// c02Serve registers the tables (default table in the order given by perm) and serves req.
+func c02Serve(c *c02Case, perm []int) (c02Obs, [][]c02Ev) {
+	acts := c02Plan(c, perm)
+	evs := c02Expand(c, acts)
+	return c02Exec(c, acts, evs), evs
+}
+
+// c02ServeFlat: the same tables, but only the registrations IN FORCE, every one registered exactly once under its full
+// path directly on its router (no groups, no middleware; catch-all routes as ordinary RouteNotFound routes) in the
+// order of the handler ids.  By the property the answer to every request is the same.
+func c02ServeFlat(c *c02Case, tbls [][]c02Entry) c02Obs {
+	flat := &c02Case{Hosts: make([]c02Host, len(c.Hosts)), Req: c.Req, Pre: c.Pre, Routes: make([]rRoute, len(c.Routes))}
+	var acts []c02Act
+	for _, en := range tbls[0] {
+		acts = append(acts, c02Act{Kind: 'r', Method: en.Method, Path: en.Path, Hid: en.Hid, Pick: en.Hid})
+	}
+	for k, h := range c.Hosts {
+		flat.Hosts[k] = c02Host{Host: h.Host}
+		acts = append(acts, c02Act{Kind: 'h', Table: k + 1})
+		for _, en := range tbls[k+1] {
+			acts = append(acts, c02Act{Kind: 'r', Table: k + 1, Method: en.Method, Path: en.Path, Hid: en.Hid, Pick: en.Hid})
+		}
+	}
+	return c02Exec(flat, acts, make([][]c02Ev, len(acts)))
+}
+
+func c02Selected(c *c02Case) int {
 	// the property's own reading of host selection: exactly that Host value, else default
 	for k := len(c.Hosts) - 1; k >= 0; k-- { // a host registered twice: the later Host() call replaces the router
 		if c.Hosts[k].Host == c.Req.Host {
-			return k + 1, c.Hosts[k].Routes
+			return k + 1
 		}
 	}
-	return 0, c.Routes
+	return 0
 }
 
 func c02AllLiteral(p string) bool {
@@ -156,6 +467,18 @@ func rMatchConservativeOrEmpty(toks []rTok, path string) bool {
 	return false
 }
 
+func c02EvWire(evs []c02Ev) string {
+	parts := []string{wInt(len(evs))}
+	for _, ev := range evs {
+		if ev.Use {
+			parts = append(parts, "U", wStr(ev.Path), wInt(ev.Hid))
+		} else {
+			parts = append(parts, "R", wStr(ev.Method), wStr(ev.Path), wInt(ev.Hid))
+		}
+	}
+	return strings.Join(parts, " ")
+}
+
 func c02Run(ci any) Result {
 	c := ci.(*c02Case)
 	if len(c.Perm) != len(c.Routes) {
@@ -164,21 +487,57 @@ func c02Run(ci any) Result {
 			c.Perm[i] = i
 		}
 	}
-	got := c02Serve(c, c.Perm)
+	got, evs := c02Serve(c, c.Perm)
 	tags := []string{"outcome-" + string(got.Kind)}
 	res := Result{Obs: got.wire()}
+	// the registrations per table, in the order they were made
+	perTable := make([][]c02Ev, len(c.Hosts)+1)
+	for _, l := range evs {
+		for _, ev := range l {
+			perTable[ev.Table] = append(perTable[ev.Table], ev)
+		}
+	}
 	// ops: default table, host tables, request
-	parts := []string{rTableWire(c.Routes), wInt(len(c.Hosts))}
-	for _, h := range c.Hosts {
-		parts = append(parts, wStr(h.Host), rTableWire(h.Routes))
+	parts := []string{c02EvWire(perTable[0]), wInt(len(c.Hosts))}
+	for k, h := range c.Hosts {
+		parts = append(parts, wStr(h.Host), c02EvWire(perTable[k+1]))
 	}
 	parts = append(parts, wStr(c.Req.Host), wStr(c.Req.Method), wStr(c.Req.Path))
 	res.Ops = strings.Join(parts, " ")
 
-	wantTable, sel := c02Selected(c)
-	clash := rColonClash(sel) || rHasTextAfterStar(sel)
+	tbls := make([][]c02Entry, len(perTable))
+	shadowed := make([]map[int]bool, len(perTable))
+	rereg := false
+	for t := range perTable {
+		tbls[t], shadowed[t] = c02InForce(perTable[t])
+		if len(shadowed[t]) > 0 {
+			rereg = true
+		}
+	}
+	wantTable := c02Selected(c)
+	sel := tbls[wantTable]
+	selRoutes := make([]rRoute, len(sel))
+	for i, en := range sel {
+		selRoutes[i] = rRoute{Method: en.Method, Path: en.Path}
+	}
+	clash := rColonClash(selRoutes) || rHasTextAfterStar(selRoutes)
 	if clash {
 		tags = append(tags, "colon-clash-or-text-after-star")
+	}
+	if rereg {
+		tags = append(tags, "re-registered-route")
+	}
+	if len(c.Groups) > 0 {
+		tags = append(tags, "with-groups")
+	}
+	implicitHid := func(t, hid int) bool {
+		if t == 0 {
+			return hid >= len(c.Routes)
+		}
+		return t-1 < len(c.Hosts) && hid >= len(c.Hosts[t-1].Routes)
+	}
+	if got.Kind == 'D' && implicitHid(got.Table, got.Hid) {
+		tags = append(tags, "group-catch-all-route")
 	}
 	fail := func(s string) {
 		if res.Oracle == "" {
@@ -192,30 +551,61 @@ func c02Run(ci any) Result {
 	if len(c.Hosts) > 0 {
 		tags = append(tags, "with-hosts")
 	}
-	// (b) order independence: same set registered in canonical order must give the same outcome
-	ident := make([]int, len(c.Routes))
-	sorted := true
-	for i := range ident {
-		ident[i] = i
-		if c.Perm[i] != i {
-			sorted = false
+	// (e) the handler that ran belongs to a registration in force (of identical registrations the last wins) made for
+	// the request's method (or as a RouteNotFound route)
+	if got.Kind == 'D' && got.Table == wantTable {
+		var en *c02Entry
+		for i := range sel {
+			if sel[i].Hid == got.Hid {
+				en = &sel[i]
+			}
+		}
+		switch {
+		case en == nil && shadowed[wantTable][got.Hid]:
+			fail(fmt.Sprintf("the handler of registration %d ran, but the same route was registered again later: the last registration wins", got.Hid))
+		case en == nil:
+			fail(fmt.Sprintf("handler id %d is not registered on table %d", got.Hid, wantTable))
+		case en.Method != routeNotFound && en.Method != c.Req.Method:
+			fail(fmt.Sprintf("the handler registered for %s %q ran for a %s request", en.Method, en.Path, c.Req.Method))
 		}
 	}
-	if !sorted {
+	// (b) order independence: the registrations in force, each made once, flat, in canonical order must give the
+	// same outcome
+	ident := true
+	for i := range c.Perm {
+		if c.Perm[i] != i {
+			ident = false
+		}
+	}
+	if !ident {
 		tags = append(tags, "permuted")
-		ref := c02Serve(c, ident)
-		if got.Kind == 'D' || ref.Kind == 'D' || got.Kind != ref.Kind || !obsEqual(got, ref) {
-			if !obsEqual(got, ref) {
-				fail(fmt.Sprintf("outcome depends on the registration order: %s vs %s (canonical order)", got.wire(), ref.wire()))
+	}
+	{
+		ref := c02ServeFlat(c, tbls)
+		// (a catch-all route of a group answers with echo's own not-found handler: to the client that is the
+		// router's 404; which of the two it was is compared with the model, not demanded here)
+		client := func(o c02Obs) string {
+			if o.Kind == 'D' && implicitHid(o.Table, o.Hid) {
+				return "- N"
 			}
+			return o.wire()
+		}
+		words := func(o c02Obs) string {
+			if o.Kind == 'D' && implicitHid(o.Table, o.Hid) {
+				return "404 (catch-all route of a group)"
+			}
+			return o.human()
+		}
+		if client(got) != client(ref) {
+			fail(fmt.Sprintf("outcome depends on how the table was registered: %s, but %s with the registrations in force made once each in canonical order", words(got), words(ref)))
 		}
 	}
 	// (c) a path equal to a registered literal route is served by that route
-	for i, r := range sel {
+	for _, r := range sel {
 		if r.Method == c.Req.Method && r.Method != routeNotFound && c02AllLiteral(r.Path) && c02LitText(r.Path) == c.Req.Path {
 			tags = append(tags, "literal-route")
-			if got.Kind != 'D' || got.Hid != i {
-				fail(fmt.Sprintf("path equals the literal route %q but the outcome is %s", r.Path, got.wire()))
+			if got.Kind != 'D' || got.Hid != r.Hid {
+				fail(fmt.Sprintf("path equals the literal route %q but the outcome is %s", r.Path, got.human()))
 			}
 		}
 	}
@@ -228,21 +618,24 @@ func c02Run(ci any) Result {
 			toks, _, _ := rNorm(r.Path)
 			if rMatchConservative(toks, c.Req.Path) {
 				tags = append(tags, "some-pattern-matches")
-				// (dispatch to a registered RouteNotFound route is a completed branch of the priority search:
-				// such a route stands for every method at its position; only the router's own 404/405 is a miss)
+				// (dispatch to a registered RouteNotFound route — also a group's catch-all — is a completed branch of
+				// the priority search: such a route stands for every method at its position; only the router's own
+				// 404/405 is a miss)
 				if got.Kind != 'D' {
-					fail(fmt.Sprintf("pattern %q matches %s %q but the outcome is %s", r.Path, c.Req.Method, c.Req.Path, got.wire()))
+					fail(fmt.Sprintf("pattern %q matches %s %q but the outcome is %s", r.Path, c.Req.Method, c.Req.Path, got.human()))
 				}
 				break
 			}
 		}
 	}
-	if got.Kind == 'D' && len(sel) > 2 && !sorted {
+	if got.Kind == 'D' && len(sel) > 2 && !ident {
 		res.Nontrivial = true
 	}
 	res.Tags = tags
 	return res
 }
+
+var c02Prefixes = []string{"/api", "/ab", "/a", "/v1", "/users", "/api/", "", "/:tenant", "/ab/:id", "/new", "api", "/x.y", "/a/b"}
 
 func c02Gen(r *rand.Rand, tier string) []any {
 	tables, per := 500, 8
@@ -273,16 +666,49 @@ func c02Gen(r *rand.Rand, tier string) []any {
 		return h
 	}
 	for i := 0; i < tables; i++ {
-		o := rGenOpts{escaped: r.Intn(5) == 0, maxRoute: 7}
+		o := rGenOpts{escaped: r.Intn(5) == 0, maxRoute: 7, dups: r.Intn(4) == 0}
 		routes := rGenTable(r, o)
+		if o.dups && len(routes) < 7 && r.Intn(2) == 0 {
+			// the very same route (same spelling) once more
+			routes = append(routes, routes[r.Intn(len(routes))])
+		}
 		var hosts []c02Host
 		if r.Intn(3) == 0 {
 			nh := 1 + r.Intn(2)
 			for k := 0; k < nh; k++ {
-				hosts = append(hosts, c02Host{Host: regHosts[r.Intn(len(regHosts))], Routes: rGenTable(r, rGenOpts{maxRoute: 4})})
+				hosts = append(hosts, c02Host{Host: regHosts[r.Intn(len(regHosts))], Routes: rGenTable(r, rGenOpts{maxRoute: 4, dups: r.Intn(6) == 0}), Mw: r.Intn(4) == 0})
 			}
-			if len(hosts) == 2 && hosts[0].Host == hosts[1].Host {
+			if len(hosts) == 2 && hosts[0].Host == hosts[1].Host && r.Intn(2) == 0 {
 				hosts = hosts[:1]
+			}
+		}
+		// groups: a quarter of the tables mount some of their routes in groups (with and without middleware)
+		var groups []c02Group
+		var in []int
+		if r.Intn(4) == 0 {
+			ng := 1 + r.Intn(3)
+			for g := 0; g < ng; g++ {
+				gr := c02Group{Prefix: c02Prefixes[r.Intn(len(c02Prefixes))], Mw: r.Intn(5), Early: r.Intn(3) == 0}
+				if r.Intn(3) == 0 {
+					// a prefix made of the first segment of one of the table's own patterns
+					p := strings.TrimPrefix(routes[r.Intn(len(routes))].Path, "/")
+					if k := strings.IndexByte(p, '/'); k >= 0 {
+						p = p[:k]
+					}
+					if p != "" && !strings.ContainsAny(p, "*\\") {
+						gr.Prefix = "/" + p
+					}
+				}
+				if g > 0 && r.Intn(3) == 0 {
+					gr.Parent = 1 + r.Intn(g)
+				}
+				groups = append(groups, gr)
+			}
+			in = make([]int, len(routes))
+			for k := range in {
+				if r.Intn(2) == 0 {
+					in[k] = 1 + r.Intn(ng)
+				}
 			}
 		}
 		// permutations: all of them for <= 4 routes (capped), random ones above
@@ -295,8 +721,37 @@ func c02Gen(r *rand.Rand, tier string) []any {
 				perms = append(perms, r.Perm(n))
 			}
 		}
+		// the paths the default router really knows (group routes with their prefixes) for the request generator
+		full := make([]rRoute, len(routes))
+		copy(full, routes)
+		if len(groups) > 0 {
+			tmp := &c02Case{Routes: routes, Groups: groups, In: in}
+			id := make([]int, n)
+			for k := range id {
+				id[k] = k
+			}
+			acts := c02Plan(tmp, id)
+			for _, l := range c02Expand(tmp, acts) {
+				for _, ev := range l {
+					if ev.Table != 0 {
+						continue
+					}
+					if ev.Use {
+						full = append(full, rRoute{Method: routeNotFound, Path: c02NormPath(ev.Path)}, rRoute{Method: routeNotFound, Path: c02NormPath(ev.Path + "/*")})
+					} else {
+						full[ev.Hid] = rRoute{Method: ev.Method, Path: c02NormPath(ev.Path)}
+					}
+				}
+			}
+		}
 		for k := 0; k < per; k++ {
-			q := rReq{Method: rGenMethod(r, routes), Path: rGenPath(r, routes)}
+			q := rReq{Method: rGenMethod(r, full), Path: rGenPath(r, full)}
+			if len(groups) > 0 && r.Intn(4) == 0 {
+				// a path that continues a group's prefix without a slash (`/apiary` for the group `/api`), or is the
+				// prefix, or lies below it
+				g := groups[r.Intn(len(groups))]
+				q.Path = c02NormPath(g.Prefix) + []string{"ary", "c", "d", "", "/", "/zz", "-docs", "x/y"}[r.Intn(8)]
+			}
 			q.Raw = r.Intn(5) == 0 // the router sees URL.RawPath when it is set
 			if len(hosts) > 0 {
 				switch r.Intn(4) {
@@ -318,7 +773,7 @@ func c02Gen(r *rand.Rand, tier string) []any {
 			}
 			p := perms[r.Intn(len(perms))]
 			q.Override = q.Method != "" && q.Method != routeNotFound && r.Intn(8) == 0
-			out = append(out, &c02Case{Routes: routes, Perm: p, Hosts: hosts, Req: q, Pre: r.Intn(4) == 0})
+			out = append(out, &c02Case{Routes: routes, Perm: p, Hosts: hosts, Groups: groups, In: in, Req: q, Pre: r.Intn(4) == 0})
 		}
 	}
 	return out
@@ -346,12 +801,50 @@ func c02Shrink(ci any) []any {
 		d.Hosts = nil
 		out = append(out, &d)
 	}
+	for k := range c.Hosts {
+		if c.Hosts[k].Mw {
+			d := *c
+			d.Hosts = append([]c02Host(nil), c.Hosts...)
+			d.Hosts[k].Mw = false
+			out = append(out, &d)
+		}
+	}
+	if len(c.Groups) > 0 {
+		// without the last group (its routes move to the Echo instance)
+		d := *c
+		g := len(c.Groups)
+		d.Groups = c.Groups[:g-1]
+		d.In = append([]int(nil), c.In...)
+		for i := range d.In {
+			if d.In[i] == g {
+				d.In[i] = 0
+			}
+		}
+		out = append(out, &d)
+		for k := range c.Groups {
+			if c.Groups[k].Mw > 1 {
+				d := *c
+				d.Groups = append([]c02Group(nil), c.Groups...)
+				d.Groups[k].Mw = 1
+				out = append(out, &d)
+			}
+			if c.Groups[k].Early {
+				d := *c
+				d.Groups = append([]c02Group(nil), c.Groups...)
+				d.Groups[k].Early = false
+				out = append(out, &d)
+			}
+		}
+	}
 	for i := range c.Routes {
 		if len(c.Routes) <= 1 {
 			break
 		}
 		d := *c
 		d.Routes = append(append([]rRoute(nil), c.Routes[:i]...), c.Routes[i+1:]...)
+		if len(c.In) == len(c.Routes) {
+			d.In = append(append([]int(nil), c.In[:i]...), c.In[i+1:]...)
+		}
 		d.Perm = nil
 		for _, p := range c.Perm {
 			if p < i {
@@ -375,9 +868,61 @@ func c02Shrink(ci any) []any {
 	return out
 }
 
+// c02Mutate: neighbours for the failing-input search: the same set-up asked for an instance of every pattern of
+// the selected table, and for paths that continue a group prefix without a slash
+func c02Mutate(r *rand.Rand, ci any) []any {
+	c := ci.(*c02Case)
+	var out []any
+	add := func(m, p string) {
+		d := *c
+		d.Req = rReq{Method: m, Path: p, Host: c.Req.Host}
+		out = append(out, &d)
+	}
+	rs := c.Routes
+	if t := c02Selected(c); t > 0 {
+		rs = c.Hosts[t-1].Routes
+	}
+	for i, rt := range rs {
+		p := rt.Path
+		if t := c02Selected(c); t == 0 {
+			if g := c.in(i); g > 0 {
+				for k := g; k > 0; k = c.parent(k - 1) {
+					p = c.Groups[k-1].Prefix + p
+				}
+			}
+		}
+		toks, names, _ := rNorm(p)
+		vals := make([]string, len(names))
+		for k := range vals {
+			vals[k] = "v" + wInt(k)
+		}
+		if pp, ok := rInst(toks, vals); ok && rt.Method != routeNotFound {
+			add(rt.Method, pp)
+			add(rNearMethod(r, rt.Method), pp)
+		}
+	}
+	for _, g := range c.Groups {
+		for _, s := range []string{"ary", "", "/", "/zz"} {
+			add(c.Req.Method, c02NormPath(g.Prefix)+s)
+		}
+	}
+	return out
+}
+
 func c02Known(ci any, res Result, modelObs string) string {
 	c := ci.(*c02Case)
-	_, sel := c02Selected(c)
+	t := c02Selected(c)
+	acts := c02Plan(c, c.Perm)
+	var sel []rRoute
+	for _, l := range c02Expand(c, acts) {
+		for _, ev := range l {
+			if ev.Table == t {
+				for _, en := range c02Entries(ev) {
+					sel = append(sel, rRoute{Method: en.Method, Path: en.Path})
+				}
+			}
+		}
+	}
 	if rColonClash(sel) {
 		return "F2"
 	}
@@ -387,12 +932,13 @@ func c02Known(ci any, res Result, modelObs string) string {
 func init() {
 	register(&Prop{
 		ID:             "C02",
-		Rule:           "random route tables without structural duplicates (as C01) x registration orders (every permutation for <= 3 routes, 5 random ones above) x request paths/methods derived from the patterns x Host values (registered, other, with port, case variant, empty) with 0-2 host routers registered in between; non-trivial = dispatched in a table of > 2 routes registered in a non-canonical order; distinct = distinct model op lines",
+		Rule:           "random route tables (as C01; a quarter with re-registered routes — same spelling or other parameter names —, a quarter with some routes mounted in 1-3 groups/sub-groups of the default router, with or without middleware given at creation / by Use before or after the group's routes / twice) x registration orders (every permutation for <= 3 routes, 5 random ones above) x request paths/methods derived from the patterns (incl. look-alike custom methods and paths continuing a group prefix) x Host values (registered, other, with port, case variant, empty) with 0-2 host routers (a quarter created with middleware) registered in between; every outcome is compared with a second Echo on which only the registrations in force are made, flat and once each, in canonical order; non-trivial = dispatched in a table of > 2 routes registered in a non-canonical order; distinct = distinct model op lines",
 		New:            func() any { return &c02Case{} },
 		Gen:            c02Gen,
 		Run:            c02Run,
 		Shrink:         c02Shrink,
+		Mutate:         c02Mutate,
 		Known:          c02Known,
-		Correspondence: "Router.Spec.routeTable ∘ C02.routeHost (lean/EchoModel/RouterSpec.lean, C02.lean; order-free L1 search) vs Echo.Add/Host + Echo.ServeHTTP",
+		Correspondence: "Router.Spec.routeTable ∘ C02.inForce ∘ C02.routeHost (lean/EchoModel/RouterSpec.lean, C02.lean; order-free L1 search on the registrations in force) vs Echo.Add/Group/Use/Host + Echo.ServeHTTP",
 	})
 }
